@@ -404,6 +404,49 @@ func M3_single_rule_incremental() {
 }
 `)
 	fam.Instances = append(fam.Instances, Instance{Func: "M3_single_rule_incremental", Stratum: "single-rule", Desc: "incremental text changing the salience of the only installed rule", Expect: []string{"executed"}})
+	// an accepted incremental text installs the set in priority order on every entry point that merges
+	b.WriteString(c16LibRunOn)
+	b.WriteString(`
+func M4_incremental_order() {
+	sals := map[string]int64{"a": 50, "b": 40, "c": 30, "d": 20, "e": 10}
+	text := ""
+	for _, n := range []string{"a", "b", "c", "d", "e"} {
+		text += zzRule(n, 1, strconv.Itoa(int(sals[n])))
+	}
+	q := vnd.Int64("q")
+	add := zzRule("x", 2, vnd.SalText(q))
+	sals["x"] = q
+	// builder
+	dc := context.NewDataContext()
+	for k, v := range zzApis() {
+		dc.Add(k, v)
+	}
+	rb := builder.NewRuleBuilder(dc)
+	zzMust(rb.BuildRuleFromString(text), "build")
+	zzMust(rb.BuildRuleWithIncremental(add), "incremental build")
+	zzVersions(rb)
+	vnd.Assert(len(zzRunOrder) == 6, "the merged set runs every rule once")
+	for k := 0; k+1 < len(zzRunOrder); k++ {
+		vnd.Assert(sals[zzRunOrder[k]] >= sals[zzRunOrder[k+1]], "the merged set runs in priority order (builder)")
+	}
+	// pool
+	gp, e := NewGenginePool(1, 2, SortModel, text, zzApis())
+	zzMust(e, "pool construction")
+	zzMust(gp.UpdatePooledRulesIncremental(add), "pool incremental update")
+	for which := 0; which < 2; which++ {
+		zzVerMu.Lock()
+		zzRunOrder = nil
+		zzVerMu.Unlock()
+		zzRunOn(gp, which)
+		vnd.Assert(len(zzRunOrder) == 6, "the merged set runs every rule once")
+		for k := 0; k+1 < len(zzRunOrder); k++ {
+			vnd.Assert(sals[zzRunOrder[k]] >= sals[zzRunOrder[k+1]], "the merged set runs in priority order (pool)")
+		}
+	}
+	vnd.Reach("executed")
+}
+`)
+	fam.Instances = append(fam.Instances, Instance{Func: "M4_incremental_order", Stratum: "merge-order", Desc: "a rule with a symbolic salience merged into five installed rules, builder and pool", Expect: []string{"executed"}})
 	finishPoolFamily(fam, "C10", b.String())
 	return fam, nil
 }
